@@ -163,6 +163,11 @@ func isRuntimeGoro(g *Goro) bool {
 	if len(g.Frames) == 0 {
 		return true
 	}
+	for _, f := range g.Frames {
+		if strings.HasSuffix(f, "main.spinWatchdog") {
+			return true // the worker's own watchdog sleeps on purpose and never touches the system under test
+		}
+	}
 	cb := g.CreatedBy
 	if strings.HasPrefix(cb, "runtime.") || strings.HasPrefix(cb, "runtime/") ||
 		strings.HasPrefix(cb, "os/signal.") || strings.HasPrefix(cb, "testing.") && false {
